@@ -56,6 +56,15 @@ CHECKS = {
             "exhaustively.",
             "Trusts the canonical snapshot (storage.extract_graph) as the observation of 'the model'.",
             "DESIGN.md §3 C09"),
+    "C10": ("exhaustive enumeration of the slice product built through the public API against an independent predicate "
+            "over a pinned copy of the constraint tables, plus Hypothesis-generated multi-service slices",
+            "15 service types x interface multisets (0..4 interfaces over 4 kinds) x site placements x declared site x "
+            "constrained properties are built through the topology API and validated; accept/reject must equal the "
+            "predicate in both directions, successful validation must record the inferred site, the L2PTP/SharedPort "
+            "guardrail must refuse at connect time. Quick: boundary subset (~10^4 slices); thorough: full product "
+            "(~3*10^5). The pinned table is compared with the live table on every case.",
+            "Trusts the predicate (my reading of the documented constraints) and the pinned table copy.",
+            "DESIGN.md §3 C10"),
     "C11": ("property-based testing (Hypothesis): generated slice descriptions built in several creation orders, "
             "attributes compared with a direct tally of the description and across orders / sources",
             "Each generated slice (nodes, components, facilities, services incl. external and port-mirror services "
